@@ -122,11 +122,16 @@ func genPermTable(r *rand.Rand, clients []string, wallets, accounts []string) *P
 }
 
 // namePool returns names engineered around the stems: exact, extended, prefixed, case-flipped, unrelated.
-func namePool(r *rand.Rand, stems []string) ([]string, []string) {
+func namePool(r *rand.Rand, stems []string, separators ...bool) ([]string, []string) {
 	var names, rels []string
 	for _, s := range stems {
 		names = append(names, s, s+"0", "x"+s, flipCase(r, s), s+s, s[:len(s)-1])
 		rels = append(rels, "exact", "suffix-extended", "prefix-extended", "case-flipped", "doubled", "truncated")
+		if len(separators) > 0 && separators[0] {
+			// Account names (never wallet names) may contain the path separator.
+			names = append(names, s+"/1", "x/"+s)
+			rels = append(rels, "with-separator-after", "with-separator-before")
+		}
 	}
 	names = append(names, "unrelated", "Z")
 	rels = append(rels, "unrelated", "unrelated")
